@@ -17,12 +17,14 @@ theorem processValues_TInv {c : Cfg} (hc : c.OK) : ∀ (vs : List Nat) {st : Fix
 theorem pushScope_VEq (st : FixSt) : VEq st (pushScope st) := ⟨rfl, rfl, rfl, rfl, rfl, rfl, rfl⟩
 
 theorem enterGraph_TInv {c : Cfg} (hc : c.OK) {st : FixSt} (inv : TInv c st) (g : Nat) (isG : Bool)
-    (ins outs : List Nat) (hC1 : ∀ v ∈ ins ++ outs, c.C v) (hC2 : isG = true → ∀ u, c.io u = some g → c.C u) :
-    TInv c (enterGraph st g isG ins outs) := by
+    (ins outs bouts : List Nat) (hC1 : ∀ v ∈ ins ++ outs ++ bouts, c.C v)
+    (hC2 : isG = true → ∀ u, c.io u = some g → c.C u) :
+    TInv c (enterGraph st g isG ins outs bouts) := by
   rw [enterGraph_eq inv.nr]
   have inv0 := inv.of_VEq (pushScope_VEq st)
-  have inv1 := processValues_TInv hc ins inv0 (fun v hv => hC1 v (List.mem_append_left _ hv))
-  have inv2 := processValues_TInv hc outs inv1 (fun v hv => hC1 v (List.mem_append_right _ hv))
+  have inv1 := processValues_TInv hc ins inv0 (fun v hv => hC1 v (List.mem_append_left _ (List.mem_append_left _ hv)))
+  have inv2 := processValues_TInv hc outs inv1 (fun v hv => hC1 v (List.mem_append_left _ (List.mem_append_right _ hv)))
+  refine processValues_TInv hc bouts ?_ (fun v hv => hC1 v (List.mem_append_right _ hv))
   cases isG with
   | false => simpa using inv2
   | true =>
@@ -45,8 +47,8 @@ theorem runTr_TInv {c : Cfg} (hc : c.OK) : ∀ (t : Tr) {st : FixSt}, TInv c st 
     intro st inv hC
     obtain ⟨hC1, hC2, hCb, hCr⟩ := hC.graph
     simp only [runTr]
-    have i1 := enterGraph_TInv hc inv g isG ins outs hC1 hC2
-    have i2 := enterGraph_TInv hc i1 g isG ins outs hC1 hC2
+    have i1 := enterGraph_TInv hc inv g isG ins outs (bodyOuts body) hC1 hC2
+    have i2 := enterGraph_TInv hc i1 g isG ins outs (bodyOuts body) hC1 hC2
     have i3 := ihb i2 hCb
     have i4 := i3.of_VEq (exitGraph_VEq i3.nr).1
     have i5 := i4.of_VEq (exitGraph_VEq i4.nr).1
@@ -185,7 +187,7 @@ def topInit (w : World) (t : Top) : FixSt :=
   { toWorld := w, resV := (collectTr w t.tr ([], [])).1, resN := (collectTr w t.tr ([], [])).2 }
 
 theorem fixTop_eq (w : World) (t : Top) :
-    fixTop w t = exitGraph (runTr t.body (enterGraph (topInit w t) t.gid t.isGraph t.ins t.outs)) := rfl
+    fixTop w t = exitGraph (runTr t.body (enterGraph (topInit w t) t.gid t.isGraph t.ins t.outs (bodyOuts t.body))) := rfl
 
 theorem topInit_TInv {w : World} (t : Top) (hok : InitsOk w) : TInv (topCfg w t) (topInit w t) :=
   ⟨rfl, hok, rfl, rfl, fun _ => Or.inl rfl, fun _ _ => rfl, fun _ _ => rfl⟩
@@ -194,7 +196,7 @@ theorem fixTop_TInv {w : World} {t : Top} (hok : InitsOk w) (hcl : Closed w.init
     TInv (topCfg w t) (fixTop w t) := by
   have hc := topCfg_OK hok hcl
   obtain ⟨hC1, hC2, hCb, _⟩ := (topCfg_HC w t).graph
-  have i1 := enterGraph_TInv hc (topInit_TInv t hok) t.gid t.isGraph t.ins t.outs hC1 hC2
+  have i1 := enterGraph_TInv hc (topInit_TInv t hok) t.gid t.isGraph t.ins t.outs (bodyOuts t.body) hC1 hC2
   have i2 := runTr_TInv hc t.body i1 hCb
   rw [fixTop_eq]
   exact i2.of_VEq (exitGraph_VEq i2.nr).1
@@ -209,7 +211,7 @@ theorem fixTop_scopes {w : World} {t : Top} (hok : InitsOk w) (hcl : Closed w.in
     { inj := fun a ha => by simp at ha, seen := fun u hu => by simp at hu, kept := fun v hv => by simp at hv
       top_iff := fun s => by simp [topInit, topOf] }
   obtain ⟨l1, _⟩ := enterGraph_Lvl hc iv hiv (topInit_TInv t hok) good0 (S := []) (fun x => by simp [topInit])
-    t.gid t.isGraph t.ins t.outs hC1 hC2 (fun v _ h => by simp at h)
+    t.gid t.isGraph t.ins t.outs (bodyOuts t.body) hC1 hC2 (fun v _ h => by simp at h)
   simp only [Top.tr, scopedB, Bool.and_eq_true] at hsc
   obtain ⟨l2, _, s2⟩ := runTr_Lvl hc iv hiv t.body l1.inv l1.good l1.seenEq hCb hsc.1.2
   obtain ⟨e3, _⟩ := exitGraph_VEq l2.inv.nr
